@@ -60,6 +60,8 @@ pub struct VerifStats {
     pub cuts_same_slot: u64,
     /// `EndAtomic` popped an entry that was not pushed by its structural `BeginAtomic`
     pub aux_mismatch: u64,
+    /// failing negative look-arounds whose unwinding was checked
+    pub neg_lookaround_fails: u64,
     /// comparisons made by the lock-step shadow
     pub shadow_checks: u64,
     /// comparisons that failed
@@ -89,6 +91,7 @@ struct Snap {
     slots: Vec<usize>,
     aux: Vec<usize>,
     aux_tags: Vec<usize>,
+    neg_tags: Vec<(usize, usize)>,
 }
 
 /// Monitor state attached to a `State`.
@@ -99,6 +102,10 @@ pub(super) struct Monitor {
     step_cap: Option<u64>,
     shadow: Vec<Snap>,
     aux_tags: Vec<usize>,
+    /// open negative look-arounds: (pc of their Split, number of branches before it pushed)
+    neg_tags: Vec<(usize, usize)>,
+    /// entry record of the negative look-around whose `Split` is about to push
+    pending_neg: Option<(usize, usize)>,
     stats: VerifStats,
 }
 
@@ -111,6 +118,8 @@ impl Monitor {
             step_cap: config.step_cap,
             shadow: Vec::new(),
             aux_tags: Vec::new(),
+            neg_tags: Vec::new(),
+            pending_neg: None,
             stats: VerifStats::default(),
         }
     }
@@ -146,6 +155,7 @@ impl Drop for Monitor {
             s.cuts_multi += mine.cuts_multi;
             s.cuts_same_slot += mine.cuts_same_slot;
             s.aux_mismatch += mine.aux_mismatch;
+            s.neg_lookaround_fails += mine.neg_lookaround_fails;
             s.shadow_checks += mine.shadow_checks;
             s.shadow_faults += mine.shadow_faults;
             if s.first_fault.is_none() {
@@ -172,6 +182,7 @@ fn snap_of(saves: &[usize], n: usize, aux_tags: &[usize]) -> Snap {
         slots: saves[..n.min(saves.len())].to_vec(),
         aux: aux_of(saves, n),
         aux_tags: aux_tags.to_vec(),
+        neg_tags: Vec::new(),
     }
 }
 
@@ -191,8 +202,13 @@ pub(super) fn on_push(state: &mut State) {
     m.stats.pushes += 1;
     m.stats.peak_branch_stack = m.stats.peak_branch_stack.max(state.stack.len() as u64);
     if m.shadow_on {
-        let snap = snap_of(&state.saves, state.explicit_sp, &m.aux_tags);
+        // the snapshot belongs to the state *outside* a look-around that is just being entered
+        let mut snap = snap_of(&state.saves, state.explicit_sp, &m.aux_tags);
+        snap.neg_tags = m.neg_tags.clone();
         m.shadow.push(snap);
+        if let Some(tag) = m.pending_neg.take() {
+            m.neg_tags.push(tag);
+        }
     }
 }
 
@@ -214,6 +230,7 @@ pub(super) fn on_pop(state: &mut State) {
                 ));
             }
             m.aux_tags = want.aux_tags;
+            m.neg_tags = want.neg_tags;
         }
         None => m.fault(String::from("pop without a shadow snapshot")),
     }
@@ -256,6 +273,78 @@ pub(super) fn partners(prog: &Prog) -> Vec<usize> {
         }
     }
     partner
+}
+
+/// For every `FailNegativeLookAround` the pc of the `Split` that opened its look-around (the
+/// nearest preceding `Split` whose second target is the instruction after the failure).
+pub(super) fn neg_partners(prog: &Prog) -> Vec<usize> {
+    let mut partner = alloc::vec![usize::MAX; prog.body.len()];
+    for (pc, insn) in prog.body.iter().enumerate() {
+        if let Insn::FailNegativeLookAround = insn {
+            for back in (0..pc).rev() {
+                if let Insn::Split(_, y) = prog.body[back] {
+                    if y == pc + 1 {
+                        partner[pc] = back;
+                        partner[back] = pc;
+                        break;
+                    }
+                }
+            }
+        }
+    }
+    partner
+}
+
+/// Called by `Split` before it pushes its branch.
+pub(super) fn on_split(state: &mut State, pc: usize, neg_partner: &[usize]) {
+    if state.verif.shadow_on && neg_partner[pc] != usize::MAX {
+        let depth = state.stack.len();
+        state.verif.pending_neg = Some((pc, depth));
+    }
+}
+
+/// Called by `FailNegativeLookAround` before it unwinds: the number of alternatives that existed
+/// when its look-around was entered (popping the look-around's own branch forgets the record).
+pub(super) fn before_fail_neg(
+    state: &mut State,
+    pc: usize,
+    neg_partner: &[usize],
+) -> Option<usize> {
+    if !state.verif.shadow_on {
+        return None;
+    }
+    let m = &mut state.verif;
+    // (a record still pending means the look-around's `Split` never pushed its branch)
+    let tag = m.pending_neg.take().or_else(|| m.neg_tags.last().copied());
+    match tag {
+        Some((split_pc, depth)) if split_pc == neg_partner[pc] => Some(depth),
+        other => {
+            m.fault(alloc::format!(
+                "negative look-around failure at {} without its own entry record (found {:?})",
+                pc,
+                other
+            ));
+            None
+        }
+    }
+}
+
+/// Called by `FailNegativeLookAround` after it discarded the look-around's alternatives: exactly
+/// those created since the look-around was entered must be gone, and none older.
+pub(super) fn after_fail_neg(state: &mut State, entered_with: Option<usize>) {
+    let Some(depth) = entered_with else {
+        return;
+    };
+    let m = &mut state.verif;
+    m.stats.neg_lookaround_fails += 1;
+    m.stats.shadow_checks += 1;
+    if state.stack.len() != depth {
+        m.fault(alloc::format!(
+            "a negative look-around was entered with {} alternatives, its failure left {}",
+            depth,
+            state.stack.len()
+        ));
+    }
 }
 
 pub(super) fn on_insn(state: &mut State) {
